@@ -25,6 +25,7 @@ type C12Case struct {
 	Pre         [][]byte `json:"pre"`
 	Post        [][]byte `json:"post,omitempty"`        // files added after the parsed one
 	ReaderFirst bool     `json:"readerFirst,omitempty"` // the reader is created before the file is added to the set
+	HugePre     int      `json:"hugePre,omitempty"`     // > 0: additionally a first file of that many bytes (positions beyond 16 bits)
 	G           *Grammar `json:"g,omitempty"`           // workload "grammar": a generated grammar
 	Toks        *C10Case `json:"toks,omitempty"`        // workload "tokens": a generated C10 token sequence (In is its source)
 	Lit         *C08Case `json:"lit,omitempty"`         // workload "literal": every literal parser at every offset of Lit.Data
@@ -77,9 +78,11 @@ var c12Workloads = func() map[string]parsley.Parser {
 	lr = combinator.Memoize(combinator.Any(combinator.SeqOf(&lr, text.LeftTrim(terminal.Rune('b'), text.WsSpaces)).Bind(interpreter.Nil()), terminal.Rune('a')))
 	var h parser.Func
 	h = combinator.Memoize(combinator.Any(combinator.SeqOf(combinator.Optional(terminal.Rune('x')), &h, terminal.Rune('b')).Bind(interpreter.Nil()), terminal.Rune('a')))
-	lit := combinator.Choice(terminal.Float("f"), terminal.Integer("i"), terminal.String("s", true), terminal.Char("c"),
-		terminal.TimeDuration("d"), terminal.Bool("b", "true", "false"), terminal.Nil("n", "nil"), terminal.Word("w", "foo", 1), terminal.Op("=="),
-		terminal.Regexp("r", "ID", "id", "[a-z]+", 0), terminal.Rune('('))
+	// the alternatives are memoized one by one: several memoized parsers are tried at one position
+	m := func(p parsley.Parser) parsley.Parser { return combinator.Memoize(p) }
+	lit := combinator.Choice(m(terminal.Float("f")), m(terminal.Integer("i")), m(terminal.String("s", true)), m(terminal.Char("c")),
+		m(terminal.TimeDuration("d")), m(terminal.Bool("b", "true", "false")), m(terminal.Nil("n", "nil")), m(terminal.Word("w", "foo", 1)), m(terminal.Op("==")),
+		m(terminal.Regexp("r", "ID", "id", "[a-z]+", 0)), m(terminal.Rune('(')))
 	return map[string]parsley.Parser{
 		"arith":  arithParser(),
 		"json":   jsonP,
@@ -139,6 +142,9 @@ func genC12(t *rapid.T) interface{} {
 		c.Pre = append(c.Pre, genContent(t, "p", 6))
 	}
 	c.ReaderFirst = rapid.IntRange(0, 2).Draw(t, "readerFirst") == 0
+	if rapid.IntRange(0, 7).Draw(t, "huge") == 3 {
+		c.HugePre = rapid.SampledFrom([]int{65530, 65535, 65536, 70000, 131072, 200000}).Draw(t, "hugeLen")
+	}
 	k = rapid.IntRange(0, 5).Draw(t, "npost")
 	for i := 0; i < k; i++ {
 		c.Post = append(c.Post, genContent(t, "q", 6))
@@ -184,7 +190,18 @@ func runC12(c *C12Case, pre, post [][]byte, readerFirst bool) (o c12Out, err err
 	for i, p := range post {
 		fl = append(fl, text.NewFile(fmt.Sprintf("post%d", i), p))
 	}
+	// the slice handed to NewFileSet has spare capacity and is reused by the caller afterwards: the
+	// file set must not depend on it
+	fl = append(make([]parsley.File, 0, len(fl)+3), fl...)
 	fs := parsley.NewFileSet(fl...)
+	if len(fl) > 1 {
+		// (not for the file alone: the baseline must be what it is)
+		decoy := text.NewFile("decoy", []byte("decoy\ncontent\n"))
+		for i := range fl {
+			fl[i] = decoy
+		}
+		_ = append(fl, decoy)
+	}
 	o.Base = int(f.Pos(0))
 	var p parsley.Parser
 	var probe *Probe
@@ -267,12 +284,17 @@ func checkC12(ci interface{}, st *Stats) error {
 	if err != nil {
 		return err
 	}
-	placed, err := runC12(c, c.Pre, c.Post, c.ReaderFirst)
+	pre := c.Pre
+	if c.HugePre > 0 {
+		pre = append([][]byte{bytes.Repeat([]byte("x"), c.HugePre)}, pre...)
+		st.Class("preceded by more than 64 KiB")
+	}
+	placed, err := runC12(c, pre, c.Post, c.ReaderFirst)
 	if err != nil {
 		return err
 	}
 	wantBase := 1
-	for _, p := range c.Pre {
+	for _, p := range pre {
 		wantBase += len(normCRLF(p)) + 1
 	}
 	if alone.Base != 1 || placed.Base != wantBase {
